@@ -6,11 +6,14 @@ instant per line for every input; what the fallback returns; and the repair guar
 threshold stage (stage 2) in full generality.  NOT proved: the composition "any garbage in < 40 % of
 the lines leaves stage 2 a good majority" in full generality (`repair_lt40_full`) - stage 1 is a
 cascade of data-dependent global replacements.  Proved end to end (both stages composed) for the
-corruption class "garbage in the millisecond field" (`repair_ms_garbage`, for ANY fraction below one
-half); garbage in the day / year fields is covered by the correspondence check and the property's
-own oracle only, and the clause is labelled partial.
+corruption classes "garbage in the millisecond field" (`repair_ms_garbage`, for ANY fraction below one
+half) and "garbage in the day-of-year and millisecond fields" (`repair_day_ms_garbage`, fewer than 40 %,
+under three stated side conditions); garbage in the YEAR field is covered by the correspondence check
+and the property's own oracle only, and the clause stays labelled partial.
 -/
 import PygacModel.Lemmas.TimesRepair
+import PygacModel.Lemmas.TimesDay
+import Mathlib.Tactic.IntervalCases
 import PygacModel.Generated.Misc
 namespace PygacModel.C08
 open PygacModel PygacModel.Times Np
@@ -122,6 +125,69 @@ example : Clean 2026 garbledPass where
 
 example : getTimes {} 500 2026 false (some 1025956800000) garbledPass =
     [1025956800000, 1025956800500, 1025956801000, 1025956801500, 1025956802000] := by decide +kernel
+
+/-- **End-to-end repair, corruption class "garbage in the day-of-year AND ms fields"**: `r0` is the consistent
+pass the instrument should have recorded, `r` the file - equal to it on the lines marked `good`, carrying ANY
+day and ms values on the others (scenario `Times.Garbled`: years, line numbers and the first line intact; the ms
+field within its unsigned 32 bits; whole-number median of the recorded days; pass of at most six hours).
+If fewer than 40 % of the lines are corrupt and the header time is within 6 min - 2 ms of the pass offset, then
+`get_times` returns one time per line and EVERY returned time is within 10 s (+ 2 ms) of the true time.
+The proof follows stage 1 line by line (`Times.line_cases`): a good line leaves it at its true time or - when a
+garbage day before it made the day series step down - whole days away; the line before such a lost line is
+itself either right or at least 18 h away (`Times.line_before_lost`), so that among the lines near the header
+time the right ones outnumber the wrong ones (`Count.majority_count`) and stage 2's median is right. -/
+theorem repair_day_ms_garbage (P : Rat) (sg : Bool) (nowYear : Int) (hd : Int) (r0 r : RawTimes) (good : List Bool)
+    (h : Garbled P sg nowYear r0 r good)
+    (hdec : (sg && decreasing r.nums) = false)
+    (hbad : 5 * good.count false < 2 * r0.nums.length)
+    (hhead : absR (passOffset P sg r0 - (hd : Rat)) ≤ 360000 - 2) :
+    (getTimes {} P nowYear sg (some hd) r).length = r0.nums.length ∧
+    ∀ i (hi : i < r0.nums.length) (h1 : i < (getTimes {} P nowYear sg (some hd) r).length),
+      absR ((((getTimes {} P nowYear sg (some hd) r)[i] : Int) : Rat)
+        - (((lineIdx sg r0.nums[i] : Int) : Rat) * P + passOffset P sg r0)) ≤ 10002 :=
+  Times.repair_day_ms_garbage P sg nowYear hd r0 r good h hdec hbad hhead
+
+/-- non-vacuity of its premises: six lines; line 3 carries day 300 and a garbage ms value, line 5 day 0 -/
+def truePass : RawTimes :=
+  { nums := [1, 2, 3, 4, 5, 6], year := [2002, 2002, 2002, 2002, 2002, 2002], jday := [187, 187, 187, 187, 187, 187],
+    msec := [43200000, 43200500, 43201000, 43201500, 43202000, 43202500] }
+def garbledDays : RawTimes :=
+  { nums := [1, 2, 3, 4, 5, 6], year := [2002, 2002, 2002, 2002, 2002, 2002], jday := [187, 187, 300, 187, 0, 187],
+    msec := [43200000, 43200500, 999, 43201500, 43202000, 43202500] }
+
+example : Garbled 500 false 2026 truePass garbledDays [true, true, false, true, false, true] where
+  clean := { n_pos := by decide, len_y := rfl, len_j := rfl, len_m := rfl, year_ok := by decide, jday_ok := by decide,
+             jday_mono := by decide +kernel, msec_first := by decide }
+  year_const := by decide
+  truth := by
+    intro i hi
+    have hi' : i < 6 := hi
+    have hl : (idealOfDay 500 false truePass).length = 6 := by decide +kernel
+    refine ⟨by simp [truePass]; omega, by rw [hl]; exact hi', ?_⟩
+    interval_cases i <;> decide +kernel +revert
+  nums_eq := rfl
+  year_eq := rfl
+  len_j := rfl
+  len_m := rfl
+  len_g := rfl
+  first_good := by intro _; rfl
+  good_j := by
+    intro i h1 h2 h3 hg
+    have : i < 6 := h1
+    interval_cases i <;> first | rfl | exact absurd hg (by decide +revert)
+  good_m := by
+    intro i h1 h2 h3 hg
+    have : i < 6 := h1
+    interval_cases i <;> first | rfl | exact absurd hg (by decide +revert)
+  msec_u32 := by decide
+  med_int := ⟨187, by decide +kernel⟩
+  span := by
+    intro i hi
+    have : i < 6 := hi
+    interval_cases i <;> decide +kernel +revert
+
+example : getTimes {} 500 2026 false (some 1025956800000) garbledDays =
+    [1025956800000, 1025956800500, 1025956801000, 1025956801500, 1025956802000, 1025956802500] := by decide +kernel
 
 /-- the thresholds of the running code are the model's (6 min, 1 %, 10 s) -/
 theorem generated_s2_params :
